@@ -218,6 +218,42 @@ def bind(chk: Check, tier: str, seed: int):
                 n_client += 1
                 send_recs.append({"payload": list(want), "frames": frames[1], "prevq": frames[0]})
                 send_meta.append(f"client-{kind}/send-across-reconnect")
+    # (5) the receiving side of the clients: the encoder's frames of a message whose payload contains the byte pairs the serial
+    # protocol uses as its start marker (AA 55: a date of 21930 days, a SID of 0xAA in front of a 0x55) arrive on a clean link; the
+    # client hands over exactly one message, with that payload
+    from .. import clientrun as cr
+    d29 = next(x for x in db["defs"] if x["id"] == "gnssPositionData")
+    idx29 = {f["id"]: i for i, f in enumerate(d29["fields"])}
+    for kind, fmt_ in (("ebyte", "ebyte"), ("yd", "yd"), ("waveshare", "usb")) if tier != "selftest" else (("waveshare", "usb"),):
+        for codes in ({idx29["date"]: 0x55AA}, {idx29["sid"]: 0xAA, idx29["date"]: 0x1255}, {idx29["latitude"]: 0x0102AA5504050607},
+                      {idx29["altitude"]: 0x55AA55AA55AA}, {idx29["sid"]: 7}):
+            payload = corpus.build_payload(d29, {idx29["time"]: 360000000, idx29["numberOfSvs"]: 9, idx29["referenceStations"]: 0, **codes})
+            msg = NMEA2000Decoder().decode_basic_string(corpus.basic_string(129029, payload, src=33, dst=255), already_combined=True)
+            if msg is None:
+                continue
+            enc = NMEA2000Encoder()
+            enc.sequence_counter = rng.randrange(8)
+            want = payload_of_actisense(enc.encode_actisense(msg))
+            pk = {"ebyte": enc.encode_ebyte, "usb": enc.encode_usb, "yd": enc.encode_yacht_devices}[fmt_](msg)
+            frames, _ = frames_of_packets(fmt_, pk)
+            got = [m for m in cr.deliveries(kind, [((b"00:00:00.000 R " + p) if kind == "yd" else p, "valid") for p in pk]) if m.PGN == 129029]
+            tr, lab = [], []
+            for j, f in enumerate(frames):
+                seq, fc = f[0] >> 5, f[0] & 31
+                ev = {"s": 1, "seq": seq, "fc": fc, "len": f[1] if fc == 0 and len(f) > 1 else 0, "chunk": f[2:] if fc == 0 else f[1:],
+                      "obs": "none", "payload": []}
+                if j == len(frames) - 1 and len(got) == 1:
+                    try:
+                        pl = list(payload_of_actisense(NMEA2000Encoder().encode_actisense(got[0])))
+                    except Exception:      # noqa: BLE001
+                        pl = []
+                    ev["obs"], ev["payload"] = "msg", pl + [0] * (len(want) - len(pl))
+                elif j == len(frames) - 1 and len(got) > 1:
+                    ev["obs"], ev["err"] = "err", f"{len(got)} messages delivered"
+                tr.append(ev)
+                lab.append(f"client-{kind}/receive/marker-bytes-in-payload")
+            traces.append(tr)
+            labels.append(lab)
     chk.gate(n_client >= 3, f"only {n_client} fast-packet messages were written by clients")
     chk.add(messages_sent_through_clients=n_client)
 
